@@ -13,12 +13,20 @@ def snap(tasks, wbss):
             'wbs': [[t.id for t in w.tasks] for w in wbss], 'roots': [[t.id for t in w.roots] for w in wbss]}
 
 
+class Phase(Task):
+    """a user subclass of Task that changes nothing"""
+
+
 def run_case(case):
+    mk = Phase if case.get('subclass') else Task
     w = WBS()
-    p = w // Task(1, 'p')
-    a = p // Task(2, 'a')
-    b = w // Task(3, 'b')
-    free = Task(4, 'free')
+    p = mk(1, 'p')
+    w.roots.append(p)
+    a = mk(2, 'a')
+    p.children.append(a)
+    b = mk(3, 'b')
+    w.roots.append(b)
+    free = mk(4, 'free')
     a.predecessors = [b]
     tasks, wbss = [p, a, b, free], [w]
     src = {'member': a, 'free': free}[case['source']]
@@ -34,7 +42,10 @@ def run_case(case):
             kw[k] = v
     before = snap(tasks, wbss)
     try:
-        src.clone(**kw)
+        if case.get('op') == 'ctor':
+            Task(9, 'new', **kw)
+        else:
+            src.clone(**kw)
         out = {'code': 0}
     except BaseException as e:  # noqa
         out = {'code': exc_code(e), 'exc': '%s: %s' % (type(e).__name__, str(e)[:160])}
